@@ -178,7 +178,7 @@ func randStages(r *rng, boundary bool) *datatransfer.ChannelStages {
 	return st
 }
 
-func randCState(r *rng, boundary bool) *channels.VerifChannelState {
+func randCState(r *rng, boundary bool, sliceBoundary ...bool) *channels.VerifChannelState {
 	s := &channels.VerifChannelState{
 		SelfPeer: randPeerBytes(r), TransferID: datatransfer.TransferID(randU64(r)), Initiator: randPeerBytes(r), Responder: randPeerBytes(r),
 		Sender: randPeerBytes(r), Recipient: randPeerBytes(r), TotalSize: randU64(r), Status: datatransfer.Status(r.intn(22)),
@@ -214,8 +214,8 @@ func randCState(r *rng, boundary bool) *channels.VerifChannelState {
 		}
 		s.VoucherResults = append(s.VoucherResults, v)
 	}
-	if boundary && r.chance(15) {
-		// the slice limit: 8192 entries are written, 8193 refused
+	if len(sliceBoundary) > 0 && sliceBoundary[0] {
+		// the slice limit: 8192 entries are written, 8193 refused (two records per 240: the terms are large)
 		n := 8192 + r.intn(2)
 		s.Vouchers = nil
 		for i := 0; i < n; i++ {
@@ -314,7 +314,7 @@ func runStateCodec(dir string, seed uint64, tier string) {
 	var lines []string
 	for id := 1; id <= n; id++ {
 		boundary := id%12 == 0
-		s := randCState(r, boundary)
+		s := randCState(r, boundary, id%240 == 24 || id%240 == 36)
 		label := fmt.Sprintf("record #%d status=%d vouchers=%d results=%d boundary=%v", id, uint64(s.Status), len(s.Vouchers), len(s.VoucherResults), boundary)
 		res.CaseLabels = append(res.CaseLabels, label)
 		if onlyCase != 0 && onlyCase != id {
